@@ -358,7 +358,7 @@ func init() {
 	})
 	register(&Check{
 		ID: "C17", Level: "exploration", LeakClass: "merge-concurrent",
-		NCases:       func(t string) int { return tier(t, 48, 2000) },
+		NCases:       func(t string) int { return tier(t, 48, 900) },
 		Run:          runC17,
 		Workers:      8,
 		CaseDeadline: 8 * time.Minute, // wall-clock watchdog only (see C14)
@@ -375,7 +375,7 @@ func init() {
 	})
 	register(&Check{
 		ID: "C18", Level: "exploration",
-		NCases:  func(t string) int { return tier(t, 96, 3000) },
+		NCases:  func(t string) int { return tier(t, 96, 10000) },
 		Run:     runC18,
 		Workers: 8,
 		Rule: "case = 0-8 writer goroutines execute a pre-generated script indexed by an in-database sequence key (so the state after n commits is the deterministic S(n)) while Backup(dir) is called 1-3 times into fresh directories, under the race detector, in all index modes and RWModes; " +
